@@ -74,8 +74,19 @@ def judge(d):
             uid += 1
         rows_by_tomo.append(rows)
 
+    from scipy.spatial.transform import Rotation
+
+    def rot_of(r):
+        # a per-molecule orientation derived from the uid; the centre voxel of a 3x3x3 box does not move under rotation,
+        # so the identity decoding still works, while tilt-dependent results become orientation (= row) specific
+        if not d.get("orient"):
+            return [0.0, 0.0, 0.0]
+        a = 0.3 + 0.37 * r.uid
+        return [0.9 * np.sin(a), 0.7 * np.cos(1.3 * a), 0.5 * np.sin(2.1 * a + 1.0)]
+
     def mole_of(rows):
-        return Molecules(np.array([r.pos for r in rows], dtype=np.float32).reshape(-1, 3),
+        rot = Rotation.from_rotvec(np.array([rot_of(r) for r in rows]).reshape(-1, 3)) if rows else None
+        return Molecules(np.array([r.pos for r in rows], dtype=np.float32).reshape(-1, 3), rot,
                          features=pl.DataFrame({"uid": [r.uid for r in rows], "w": [r.w for r in rows], "k": [r.k for r in rows]}))
 
     route = d["route"] if ntomo > 1 else d["route1"]
@@ -320,6 +331,7 @@ def judge(d):
         with warnings.catch_warnings():
             warnings.simplefilter("ignore")
             obs = d["obs"]
+            tkw = {"tilt": (-50.0, 60.0)} if d.get("tilt") else {}
             if obs == "apply":
                 df = cur.apply([lambda a: float(a[1, 1, 1])], schema=["centre"])
                 for i in range(n):
@@ -328,27 +340,27 @@ def judge(d):
                         out.append(viol("C03/apply-row", f"final apply: row {i} is the centre of tomogram {t - 1} {(z, y, x)}, but molecule {i} is uid {cur_model[i].uid} at {cur_model[i].pos}"))
                         break
             elif obs == "score":
-                sc = cur.score([tm])[0]
+                sc = cur.score([tm], **tkw)[0]
                 for i in range(n):
-                    w = single(i).score([tm])[0][0]
+                    w = single(i).score([tm], **tkw)[0][0]
                     if not (sc[i] == w or abs(sc[i] - w) <= 1e-6 * abs(w)):
                         out.append(viol("C03/score-row", f"final score: row {i} = {sc[i]} but the single-molecule loader of uid {cur_model[i].uid} gives {w}"))
                         break
             elif obs == "align":
-                al = cur.align(tm, max_shifts=1.0).molecules
+                al = cur.align(tm, max_shifts=1.0, **tkw).molecules
                 if al.features["uid"].to_list() != [r.uid for r in cur_model]:
                     out.append(viol("C03/align-rows", f"final align: uid column {al.features['uid'].to_list()} != {[r.uid for r in cur_model]}"))
                 else:
                     for i in range(n):
-                        w = single(i).align(tm, max_shifts=1.0).molecules
+                        w = single(i).align(tm, max_shifts=1.0, **tkw).molecules
                         if not (np.allclose(al.pos[i], w.pos[0], atol=1e-4) and abs(float(al.features["score"][i]) - float(w.features["score"][0])) <= 1e-5):
                             out.append(viol("C03/align-row", f"final align: row {i} (uid {cur_model[i].uid}) = pos {al.pos[i].tolist()} score {al.features['score'][i]}, "
                                             f"single-molecule loader gives {w.pos[0].tolist()} / {w.features['score'][0]}"))
                             break
             elif obs == "landscape":
-                ld = cur.construct_landscape(tm, max_shifts=1.0).compute()
+                ld = cur.construct_landscape(tm, max_shifts=1.0, **tkw).compute()
                 for i in range(n):
-                    w = single(i).construct_landscape(tm, max_shifts=1.0).compute()[0]
+                    w = single(i).construct_landscape(tm, max_shifts=1.0, **tkw).compute()[0]
                     if ld[i].shape != w.shape or not np.allclose(ld[i], w, atol=1e-5):
                         out.append(viol("C03/landscape-row", f"final landscape: row {i} (uid {cur_model[i].uid}) differs from the single-molecule loader"))
                         break
@@ -389,7 +401,8 @@ def cases(draw):
             "route1": draw(st.sampled_from(["single", "add_tomogram"])), "explicit_ids": draw(st.booleans()),
             "ids": draw(st.permutations([5, 2, 9, 0, 7]))[:3], "order": draw(st.sampled_from([0, 1])),
             "ops": draw(st.lists(op_strategy(), min_size=0, max_size=6)),
-            "obs": draw(st.sampled_from(["apply", "score", "align", "landscape"])), "obs_load": draw(st.booleans()), "obs_i": draw(st.integers(0, 20))}
+            "obs": draw(st.sampled_from(["apply", "score", "align", "landscape"])), "obs_load": draw(st.booleans()), "obs_i": draw(st.integers(0, 20)),
+            "orient": draw(st.booleans()), "tilt": draw(st.booleans())}
 
 
 def nontrivial(d):
@@ -399,7 +412,8 @@ def nontrivial(d):
 
 
 def labels(d):
-    return sorted({f"op:{o['op']}" for o in d["ops"]} | {f"ntomo:{d['ntomo']}", f"route:{d['route'] if d['ntomo'] > 1 else d['route1']}", f"obs:{d['obs']}"})
+    return sorted({f"op:{o['op']}" for o in d["ops"]} | {f"ntomo:{d['ntomo']}", f"route:{d['route'] if d['ntomo'] > 1 else d['route1']}", f"obs:{d['obs']}",
+                   "oriented" if d.get("orient") else "identity-orientation", "tilt" if d.get("tilt") else "no-tilt"})
 
 
 def engines():
